@@ -190,6 +190,27 @@ func (u *URL) String() string {
 		}
 	}
 
+	// Other pagination parameters
+	if u.IsCol {
+		keys := make([]string, 0, len(u.Params.Page))
+
+		for key := range u.Params.Page {
+			if key != "number" && key != "size" {
+				keys = append(keys, key)
+			}
+		}
+
+		sort.Strings(keys)
+
+		for _, key := range keys {
+			urlParams = append(
+				urlParams,
+				"page%5B"+escapeURLValue(key)+"%5D="+
+					escapeURLValue(fmt.Sprint(u.Params.Page[key])),
+			)
+		}
+	}
+
 	// Sorting
 	if len(u.Params.SortingRules) > 0 {
 		param := "sort="
